@@ -15,7 +15,9 @@ def natural_comparison_key(key: str) -> tuple:
 
     See: https://en.wikipedia.org/wiki/Natural_sort_order
     """
+    # Digit runs are compared by numeric value without converting them to int
+    # (which is limited in size): by length without leading zeros, then digits.
     return tuple(
-        (int(part), part) if is_digit else part
+        (len(part.lstrip("0")), part.lstrip("0"), part) if is_digit else part
         for part, is_digit in zip(_re_digits.split(key), cycle((False, True)))
     )
